@@ -212,7 +212,14 @@ impl BlockchainSyncState {
                                     peer_index
                                 );
                                 allowed_quota -= 1;
-                                block_data.status = BlockStatus::Queued;
+                                // the retry goes out in this round, at its place in the height order: an
+                                // entry that merely went back to the queue held its slot idle for a round
+                                // while higher blocks were requested ahead of it
+                                selected_blocks_per_peer
+                                    .entry(*peer_index)
+                                    .or_default()
+                                    .push((block_data.block_hash, block_data.block_id));
+                                block_data.status = BlockStatus::Fetching;
                             }
                             Ordering::Equal => {
                                 error!("ignoring block : {:?}-{:?} from peer : {:?} since we have repeatedly failed to fetch it",
